@@ -42,6 +42,8 @@ class CsrDriver:
             n = r["end"] - r["start"]
             stop = n if (rng.random() >= self.p_abort or n == 1) else rng.randint(1, n - 1)
             value = self.data_hook(i, r) if self.data_hook else rng.getrandbits(max(1, n * self.dw))
+            if rng.random() < 0.1:
+                value = rng.choice([0, (1 << (n * self.dw)) - 1, 1 << rng.randrange(n * self.dw)])
             self.transactions += 1
             for k in range(stop):
                 while rng.random() < 0.1:
